@@ -10,6 +10,7 @@ observable and checked against generic invariants.
 from .. import flowcheck
 from .. import floworacle as fo
 from .. import floworacle_r3 as f3
+from .. import floworacle_r4 as f4
 
 LEAN_MODULES = ['Props.C06', 'Props.Agreement', 'Props.Translated_C06']
 TRUSTED = ['harness/flow_impl.py (yaml renderer, canonicaliser, virtual clock, scripted random.uniform)',
@@ -44,7 +45,8 @@ def run(env, res):
         c06_backoff = None
     if c06_backoff is not None:
         c06_backoff.run_backoff(env, res)
-    directed = [('c06', fo.c06_family, env.n(400, 100000)), ('c06-retry-reentry', fo.c06_reentry_family, env.n(160, 100000)),
+    directed = [('c06-when-evaluated', f4.c06_when_family, env.n(70, 100000)),
+                ('c06', fo.c06_family, env.n(400, 100000)), ('c06-retry-reentry', fo.c06_reentry_family, env.n(160, 100000)),
                 ('c06-max', fo.c06_max_family, env.n(120, 100000)), ('c06-fault', fo.c06_fault_family, env.n(90, 100000)),
                 ('c06-text', fo.c06_text_family, env.n(14, 100000)),
                 ('c06-default-backoff', fo.c06_default_backoff_family, env.n(35, 100000)),
